@@ -35,6 +35,7 @@ from collada import light
 from collada import material
 from collada import scene
 from collada.common import E, tagger, tag
+from collada.common import getReference
 from collada.common import DaeError, DaeIncompleteError, DaeBrokenRefError, \
     DaeMalformedError, DaeSaveValidationError
 from collada.util import IndexedList
@@ -481,9 +482,7 @@ class Collada(object):
         node = self.xmlnode.find('%s/%s' % (self.tag('scene'), self.tag('instance_visual_scene')))
         try:
             if node is not None:
-                sceneid = node.get('url')
-                if not sceneid.startswith('#'):
-                    raise DaeMalformedError('Malformed default scene reference to %s: ' % sceneid)
+                sceneid = '#' + getReference(node, 'url')
                 self.scene = self.scenes.get(sceneid[1:])
                 if not self.scene:
                     raise DaeBrokenRefError('Default scene %s not found' % sceneid)
